@@ -320,6 +320,7 @@ func (c *c13) exec(line string) (obs string, suffix string) {
 	planBefore, hadPlan := c.plan()
 	var orc []string
 	var err error
+	var post []func() // monitors, run once the op line is part of the replay
 	cls := ""
 	kind := fl[0]
 	ok := false
@@ -403,7 +404,7 @@ func (c *c13) exec(line string) (obs string, suffix string) {
 		lb := c.f.Bal(a, c.liq)
 		_, err = c.f.Deliver(&irotypes.MsgBuy{Buyer: a.String(), PlanId: c.pid(), Amount: amt, MaxCostAmount: c13Int(fl[3])})
 		cls = c.class(err)
-		c.afterTrade(kind, ai, a, planBefore, hadPlan, err, math.Int{}, math.Int{}, lb)
+		post = append(post, func() { c.afterTrade(kind, ai, a, planBefore, hadPlan, err, math.Int{}, math.Int{}, lb) })
 	case "bes":
 		a, ai := act(1)
 		spend := c13Int(fl[2])
@@ -427,7 +428,7 @@ func (c *c13) exec(line string) (obs string, suffix string) {
 		if cls == "other" && curveErr {
 			cls = "curve"
 		}
-		c.afterTrade(kind, ai, a, planBefore, hadPlan, err, spend, net, lb)
+		post = append(post, func() { c.afterTrade(kind, ai, a, planBefore, hadPlan, err, spend, net, lb) })
 	case "sell":
 		a, ai := act(1)
 		amt := c13Int(fl[2])
@@ -437,7 +438,7 @@ func (c *c13) exec(line string) (obs string, suffix string) {
 		lb := c.f.Bal(a, c.liq)
 		_, err = c.f.Deliver(&irotypes.MsgSell{Seller: a.String(), PlanId: c.pid(), Amount: amt, MinIncomeAmount: c13Int(fl[3])})
 		cls = c.class(err)
-		c.afterTrade(kind, ai, a, planBefore, hadPlan, err, math.Int{}, math.Int{}, lb)
+		post = append(post, func() { c.afterTrade(kind, ai, a, planBefore, hadPlan, err, math.Int{}, math.Int{}, lb) })
 	case "enable":
 		a, _ := act(1)
 		_, err = c.f.Deliver(&irotypes.MsgEnableTrading{Owner: a.String(), PlanId: c.pid()})
@@ -465,13 +466,13 @@ func (c *c13) exec(line string) (obs string, suffix string) {
 		raBefore := c.f.Bal(a, c.raDenom)
 		_, err = c.f.Deliver(&irotypes.MsgClaim{Claimer: a.String(), PlanId: c.pid()})
 		cls = c.class(err)
-		c.afterClaim(ai, a, planBefore, hadPlan, bal, raBefore, err)
+		post = append(post, func() { c.afterClaim(ai, a, planBefore, hadPlan, bal, raBefore, err) })
 	case "claimv":
 		a, ai := act(1)
 		liqBefore := c.f.Bal(a, c.liq)
 		_, err = c.f.Deliver(&irotypes.MsgClaimVested{Claimer: a.String(), PlanId: c.pid()})
 		cls = c.class(err)
-		c.afterClaimVested(ai, a, planBefore, hadPlan, liqBefore, err)
+		post = append(post, func() { c.afterClaimVested(ai, a, planBefore, hadPlan, liqBefore, err) })
 	case "xfer":
 		a, _ := act(1)
 		b, _ := act(2)
@@ -490,20 +491,21 @@ func (c *c13) exec(line string) (obs string, suffix string) {
 	}
 	ok = cls == "ok"
 	after := c.state()
-	// a rejected op must leave everything observable untouched
-	if !ok && kind != "time" {
-		if after != before || digest != c.f.StoreDigest("iro") {
-			c.lines = append(c.lines, main)
-			c.viol("C13/atomic/rejected-op-changed-state", fmt.Sprintf("class %s: before `%s` after `%s`", cls, before, after))
-			c.lines = c.lines[:len(c.lines)-1]
-		}
-	}
 	full := main
 	if len(orc) > 0 {
 		suffix = "| " + strings.Join(orc, " ")
 		full = main + " " + suffix
 	}
 	c.lines = append(c.lines, full)
+	// a rejected op must leave everything observable untouched
+	if !ok && kind != "time" {
+		if after != before || digest != c.f.StoreDigest("iro") {
+			c.viol("C13/atomic/rejected-op-changed-state", fmt.Sprintf("class %s: before `%s` after `%s`", cls, before, after))
+		}
+	}
+	for _, fn := range post {
+		fn()
+	}
 	c.monitorState()
 	c.kinds = append(c.kinds, kind+"/"+cls)
 	if ok && kind != "time" && kind != "fund" {
